@@ -883,10 +883,12 @@ class DiscreteFactor(BaseFactor, StateNameMixin):
         """
         Checks if the factor's values can be used for a valid CPD.
         """
+        # The factor-level marginalisation: subclasses such as TabularCPD refuse to
+        # sum out their own variable, and a plain factor has no to_factor().
         return config.get_compute_backend().allclose(
-            self.to_factor()
-            .marginalize(self.scope()[:1], inplace=False)
-            .values.flatten(),
+            DiscreteFactor.marginalize(
+                self, self.scope()[:1], inplace=False
+            ).values.flatten(),
             compat_fns.ones(np.prod(self.cardinality[:0:-1])),
             atol=0.01,
         )
